@@ -55,6 +55,8 @@ def run(chk):
              "first use (rejection condition evaluated over the whole value domain) with a negative / null result")
     chk.rule("R6.noclip", "ExecuteInternal returns on ClipType::NoClip before calling anything that can reach NewOutRec")
     chk.rule("SUCCESS.re-armed", "every Execute writes succeeded_ (= true, in Reset) before reading it")
+    chk.rule("BOUNDS.minmax", "every GetBounds overload (whose result feeds the range check of ScalePaths) updates min and max with every vertex, "
+             "including the first one in the sentinel state (innermost loop body interpreted on 4 situations x 2 coordinates)")
     chk.rule("R7.validator-table", "CheckPrecisionRange accepts exactly [-MAX, MAX], otherwise sets the code, calls DoError and clamps")
     chk.rule("R7.zero-scale", "ScalePath reports a zero scale")
     chk.rule("R7.range-table", "ScalePaths<int64_t> rejects exactly the bounds that leave [min_coord, max_coord]")
@@ -66,6 +68,8 @@ def run(chk):
         e.rule_r5()
         e.rule_r6(Module(cfg))
         e.rule_r7()
+        from ..engines import e3_tables as e3
+        e3.bounds_update_table(db, chk, cfg)
         if not e.doerror_throws:
             e.rule_r2()
             e.rule_r3()
